@@ -7,7 +7,7 @@ deltas travel along as `amap=` so that harness (third-party `vlq` crate) and dri
 check the writer."""
 from common import *
 
-STR_POOL = ["a.js", "b.js", "lib/c.ts", "", "/abs/x.js", "http://h/x.js", "https://h/y.js", "httpx", "http:", "https:", "/",
+STR_POOL = ["a.js", "b.js", "lib/c.ts", "", "/abs/x.js", "http://h/x.js", "https://h/y.js", "httpx", "http:", "https:", "/", "http", "https", "httpsx/y.js", "https/z", "htt", "http/",
             "x/../y", "ünï.js", "日本語", "\"q\"", "back\\slash", "tab\tnew\nline\r", "  ", "\U0001F600.js",
             "a b", "nul\u0000x", "</script>", "\u007f\u0080", "{}[],:", "null", "퟿", "webpack:///./src/i.js"]
 ALPH = "ab/.:\\\"\n\t é中\U0001F600{}h-_0"
